@@ -41,11 +41,41 @@ fn required(cfg: &Cfg, now: u64, v: &Version, is_newest_write: bool) -> bool {
     now.saturating_sub(v.ts) <= cfg.retention
 }
 
-/// Expected history of one key, newest first: (entry, required?)
-fn key_history(model: &Model, h: usize, cfg: &Cfg, now: u64, key: &[u8], q: &HistQuery) -> Vec<(HEntry, bool)> {
+/// The versions of `key` if a REPLACE that has left the retention window (and is not the newest write) no longer
+/// erased what lies below it - what the store shows in known finding F48.
+fn versions_expired_replace_gone(model: &Model, h: usize, cfg: &Cfg, now: u64, key: &[u8]) -> Vec<Version> {
     let all = model.writes_of(h, key);
     let newest_ord = all.last().map(|v| v.ord);
-    let vs = model.versions(h, key);
+    let mut start = 0;
+    for (i, v) in all.iter().enumerate() {
+        match v.op {
+            Op::Delete => start = i + 1,
+            Op::Replace(_) => {
+                if required(cfg, now, v, Some(v.ord) == newest_ord) {
+                    start = i;
+                } else {
+                    // A compaction that saw this REPLACE dropped everything below it that took part - hard DELETE markers
+                    // included ("below a REPLACE that every reader can see") - and the REPLACE itself once it had left
+                    // the window: whatever older version still sits in a deeper level can come back.
+                    start = 0;
+                }
+            }
+            _ => {}
+        }
+    }
+    all[start..].to_vec()
+}
+
+/// Expected history of one key, newest first: (entry, required?)
+fn key_history(model: &Model, h: usize, cfg: &Cfg, now: u64, key: &[u8], q: &HistQuery) -> Vec<(HEntry, bool)> {
+    key_history_with(model, h, cfg, now, key, q, false)
+}
+
+fn key_history_with(model: &Model, h: usize, cfg: &Cfg, now: u64, key: &[u8], q: &HistQuery, expired_replace_gone: bool) -> Vec<(HEntry, bool)> {
+    let all = model.writes_of(h, key);
+    let newest_ord = all.last().map(|v| v.ord);
+    let strict = model.versions(h, key);
+    let vs = if expired_replace_gone { versions_expired_replace_gone(model, h, cfg, now, key) } else { strict.clone() };
     let mut out = Vec::new();
     for v in vs.iter().rev() {
         let tomb = matches!(v.op, Op::SoftDelete);
@@ -61,7 +91,9 @@ fn key_history(model: &Model, h: usize, cfg: &Cfg, now: u64, key: &[u8], q: &His
             }
         }
         let val = v.op.value().map(|x| x.bytes()).unwrap_or_default();
-        out.push((HEntry { key: key.to_vec(), ts: v.ts, tomb, val }, required(cfg, now, v, Some(v.ord) == newest_ord)));
+        // (in the lenient list the versions that come back are optional)
+        let req = required(cfg, now, v, Some(v.ord) == newest_ord) && strict.iter().any(|s| s.ord == v.ord);
+        out.push((HEntry { key: key.to_vec(), ts: v.ts, tomb, val }, req));
     }
     out
 }
@@ -255,6 +287,33 @@ fn check_history_inner(model: &Model, h: usize, cfg: &Cfg, now: u64, txn: &Trans
         None => {
             if let Err(why) = is_subsequence_containing(&got, &exp) {
                 let mut class = class_of(&got, &exp_entries);
+                // known finding F48: with finite retention, a REPLACE that has left the window was dropped and the
+                // versions it had erased are listed again
+                if cfg.retention > 0 {
+                    let mut alt: Vec<(HEntry, bool)> = Vec::new();
+                    let mut pk: Vec<Vec<(HEntry, bool)>> = Vec::new();
+                    for k in model.all_keys() {
+                        if k.as_slice() < q.lo.as_slice() || k.as_slice() >= q.hi.as_slice() {
+                            continue;
+                        }
+                        let kh = key_history_with(model, h, cfg, now, &k, q, true);
+                        if !kh.is_empty() {
+                            pk.push(kh);
+                        }
+                    }
+                    if q.rev {
+                        for kh in pk.iter().rev() {
+                            alt.extend(kh.iter().rev().cloned());
+                        }
+                    } else {
+                        for kh in pk.iter() {
+                            alt.extend(kh.iter().cloned());
+                        }
+                    }
+                    if is_subsequence_containing(&got, &alt).is_ok() {
+                        class = "history-expired-replace-no-longer-erases".into();
+                    }
+                }
                 // the same version listed twice in a row (and nothing else wrong)?
                 let mut dedup = got.clone();
                 dedup.dedup();
@@ -356,11 +415,20 @@ fn check_get_at_inner(model: &Model, h: usize, cfg: &Cfg, now: u64, txn: &Transa
     }
     let admissible: Vec<Option<Vec<u8>>> = if cands.is_empty() { vec![None] } else { cands.iter().map(|v| v.op.value().map(|x| x.bytes())).collect() };
     if !admissible.contains(&got) {
-        let class = match (&got, admissible.iter().all(|a| a.is_none())) {
+        let mut class = match (&got, admissible.iter().all(|a| a.is_none())) {
             (Some(_), true) => "get_at-erased-or-phantom-value",
             (None, _) => "get_at-missing-value",
             _ => "get_at-wrong-value",
         };
+        if cfg.retention > 0 {
+            // known finding F48: the answer comes from a version below a REPLACE that has left the retention window
+            let lenient = versions_expired_replace_gone(model, h, cfg, now, key);
+            let strict_ords: Vec<(usize, usize)> = vs.iter().map(|v| v.ord).collect();
+            let came_back: Vec<&Version> = lenient.iter().filter(|v| !strict_ords.contains(&v.ord) && v.ts <= t).collect();
+            if !came_back.is_empty() && (got.is_none() || came_back.iter().any(|v| v.op.value().map(|x| x.bytes()) == got)) {
+                class = "get_at-expired-replace-no-longer-erases";
+            }
+        }
         return Err((
             class.into(),
             format!(
